@@ -62,6 +62,17 @@ def gen(ctx):
             w = nat + 2 * q
             for width in list(range(w + 1, w + (70 if ctx.tier == 'quick' else 300))):
                 meta.append((sym, level, q, Fraction(1), width, p))
+        # requested widths around the scaled size when the product (n+2q)*s is fractional: floor-1, floor, ceiling, ceiling+1
+        # (the width option and the module size interact exactly at floor / ceiling)
+        for q in (0, 2, 4):
+            w = nat + 2 * q
+            for s in (Fraction(3, 2), Fraction(5, 2), Fraction(5, 4), Fraction(13, 10), Fraction(7, 3), Fraction(65, 64)):
+                prod = w * s
+                if prod.denominator == 1 or not fceil_agrees(w, s):
+                    continue
+                fl = prod.numerator // prod.denominator
+                for width in (fl - 1, fl, fl + 1, fl + 2):
+                    meta.append((sym, level, q, s, width, p))
     scan_from = n + 3 * 18
     # rMQR, non-square: requested widths W for which the proportional height h*W/w is an EXACT integer although W is not a
     # multiple of the padded width - the cases in which the order of the floating-point operations decides whether the
